@@ -19,13 +19,33 @@ ALIASES = ["x", "y", "z"]
 PARENTS = ["P1", "P2", "P3", "PX"]       # PX: dangling
 TRANSCRIPTS = ["T1", "T2", "T3"]
 BASES = ["K", "Q", "gene.7", "x_1"]
+GENES = ["G1", "G2", "G3"]
+FLAGS = ["pseudo", "partial"]                       # valueless attribute keys
+# (transcript key, gene key) given as gtf_transcript_key / gtf_gene_key (create_db) and transcript_key / gene_key (update)
+GTF_KEYS = [["tx", "gn"], ["transcript_name", "gene_name"], ["Parent", "gene_id"], ["transcript_id", "locus"],
+            ["mRNA", "transcript_id"], ["gene_id", "transcript_id"]]
+DOT_POOL = {"start": [".", ".", "100", "150"], "end": [".", ".", "200", "300"]}
+
+# opts (all optional; plain data, only used while generating):
+#     flags    True: valueless attribute keys on the colliding features (extra flag keys; Note/Alias sometimes valueless)
+#     dots     "start" | "end" | "both": these coordinates are drawn from {'.', two numbers}
+#     gtfkeys  [transcript key, gene key] for the GTF importer (decoy transcript_id / gene_id attributes may be present)
+#     shuffle  True: force_merge_fields is handed over in a non-canonical order
+#     nbase    number of colliding base keys
 
 
-def columns(rng):
-    return dict((c, rng.choice(v)) for c, v in VALUES.items())
+def pool(c, opts):
+    d = (opts or {}).get("dots")
+    if d and (d == "both" or d == c) and c in DOT_POOL:
+        return DOT_POOL[c]
+    return VALUES[c]
 
 
-def vary(rng, cols, force):
+def columns(rng, opts=None):
+    return dict((c, rng.choice(pool(c, opts))) for c in VALUES)
+
+
+def vary(rng, cols, force, opts=None):
     """A variant of cols: differs in 1-2 columns, biased to forced columns (mergeable) when there are any."""
     new = dict(cols)
     r = rng.random()
@@ -36,13 +56,23 @@ def vary(rng, cols, force):
     else:
         pick = rng.sample(list(M.COLS), 2)
     for c in pick:
-        new[c] = rng.choice([v for v in VALUES[c] if v != cols[c]])
+        new[c] = rng.choice([v for v in pool(c, opts) if v != cols[c]])
     return new
 
 
-def attributes(rng, fmt, idkey, key):
+def attributes(rng, fmt, idkey, key, opts=None):
+    opts = opts or {}
     attrs = [[idkey, [key]]]
-    if fmt == "gtf":
+    if fmt == "gtf" and opts.get("gtfkeys"):
+        tkey, gkey = opts["gtfkeys"]
+        head = [[gkey, [rng.choice(GENES)]]]
+        if rng.random() < 0.9:
+            head.append([tkey, [rng.choice(TRANSCRIPTS)]])
+        for decoy, vals in (("transcript_id", TRANSCRIPTS), ("gene_id", GENES)):   # ordinary attributes under these keys
+            if decoy not in (tkey, gkey, idkey) and rng.random() < 0.5:
+                head.append([decoy, [rng.choice(vals)]])
+        attrs = head + attrs
+    elif fmt == "gtf":
         t = rng.choice(TRANSCRIPTS)
         attrs = [["gene_id", ["G%d" % (1 + int(t[1:]) % 2)]], ["transcript_id", [t]]] + attrs
     elif rng.random() < 0.7:
@@ -55,24 +85,38 @@ def attributes(rng, fmt, idkey, key):
         attrs.append(["only%d" % rng.randrange(3), ["v%d" % rng.randrange(3)]])
     if rng.random() < 0.1:
         attrs.append(["flag", []])
+    if opts.get("flags"):
+        have = set(k for k, _ in attrs)
+        for k in ("Note", "Alias"):
+            if k in have:
+                if rng.random() < 0.3:
+                    attrs = [[a, [] if a == k else v] for a, v in attrs]      # the same key: here without values
+            elif rng.random() < 0.25:
+                attrs.append([k, []])
+        for k in FLAGS:
+            if rng.random() < 0.45:
+                attrs.append([k, []])
     return attrs
 
 
-def gen_history(rng, fmt, strategy, force, path, arrivals=None):
+def gen_history(rng, fmt, strategy, force, path, arrivals=None, opts=None):
+    opts = dict(opts or {})
+    if fmt != "gtf":
+        opts.pop("gtfkeys", None)
     idkey = "ID" if fmt == "gff3" else rng.choice(["fid", "ID"])
     steer = M.Store(strategy, force)
     recs = []
     if fmt == "gff3":
         for p in PARENTS[:3]:
             if rng.random() < 0.8:
-                cols = columns(rng)
+                cols = columns(rng, opts)
                 cols["featuretype"] = "mRNA"
                 rec = dict(cols, attrs=[["ID", [p]], ["Note", ["parent"]]], extra=[])
                 steer.arrive(p, rec)
                 recs.append(rec)
-    nbase = rng.choice([1, 1, 2])
+    nbase = opts.get("nbase") or rng.choice([1, 1, 2])
     bases = rng.sample(BASES, nbase)
-    variants = dict((b, [columns(rng)]) for b in bases)
+    variants = dict((b, [columns(rng, opts)]) for b in bases)
     todo = dict((b, arrivals or rng.choice([2, 3, 3, 4, 5, 6])) for b in bases)
     pattern = dict((b, []) for b in bases)
     aborted = False
@@ -91,9 +135,9 @@ def gen_history(rng, fmt, strategy, force, path, arrivals=None):
         elif rng.random() < 0.35:
             vi = 0
         else:
-            vs.append(vary(rng, vs[0], force if strategy == "merge" else rng.sample(M.COLS, 2)))
+            vs.append(vary(rng, vs[0], force if strategy == "merge" else rng.sample(M.COLS, 2), opts))
             vi = len(vs) - 1
-        rec = dict(vs[vi], attrs=attributes(rng, fmt, idkey, key), extra=[])
+        rec = dict(vs[vi], attrs=attributes(rng, fmt, idkey, key, opts), extra=[])
         try:
             steer.arrive(key, rec)
         except M.Silent:
@@ -107,25 +151,74 @@ def gen_history(rng, fmt, strategy, force, path, arrivals=None):
         todo[b] -= 1
         if rng.random() < 0.15:
             u = "u%d" % len(recs)
-            rec = dict(columns(rng), attrs=attributes(rng, fmt, idkey, u), extra=[])
+            rec = dict(columns(rng, opts), attrs=attributes(rng, fmt, idkey, u, opts), extra=[])
             steer.arrive(u, rec)
             recs.append(rec)
     if aborted and rng.random() < 0.5:
-        recs.append(dict(columns(rng), attrs=attributes(rng, fmt, idkey, "after"), extra=[]))
+        recs.append(dict(columns(rng, opts), attrs=attributes(rng, fmt, idkey, "after", opts), extra=[]))
     if path == "create" or len(recs) < 2:
         batches = [recs]
     else:
         ncut = 1 if (len(recs) < 4 or rng.random() < 0.6) else 2
         cuts = sorted(rng.sample(range(1, len(recs)), ncut))
         batches = [recs[i:j] for i, j in zip([0] + cuts, cuts + [len(recs)])]
-    return {
-        "kind": "history", "fmt": fmt, "strategy": strategy, "force": list(force), "idkey": idkey,
+    given = list(force)
+    if opts.get("shuffle") and len(given) >= 2:
+        while given == canonical(given):
+            rng.shuffle(given)
+    case = {
+        "kind": "history", "fmt": fmt, "strategy": strategy, "force": given, "idkey": idkey,
         "spec_form": rng.choice(["default", "str"]) if (fmt == "gff3" and idkey == "ID") else rng.choice(["str", "list"]),
         "batches": batches, "reopen": rng.random() < 0.4,
         "db": "file" if (len(batches) > 1 or rng.random() < 0.25) else "memory",
         "pass_force_anyway": strategy != "merge" and rng.random() < 0.3,
         "pattern": sorted(tuple(p) for p in pattern.values()),
     }
+    if opts.get("gtfkeys"):
+        case["gtfkeys"] = list(opts["gtfkeys"])
+    tags = [k for k in ("flags", "dots", "gtfkeys") if opts.get(k)]
+    if tags:
+        case["opts"] = tags
+    return case
+
+
+def canonical(force):
+    return [f for f in M.COLS if f in force]
+
+
+def base_of(rec, idkey, bases):
+    k = dict((a, v) for a, v in rec["attrs"])[idkey][0]
+    for b in bases:
+        if k == b or (k.startswith(b + "_") and k[len(b) + 1:].isdigit()):
+            return b
+    return None
+
+
+def gen_multirun(rng, fmt, strategy, force, opts=None):
+    """One key colliding in create_db and again in 2-4 later update() calls (reopened between runs: never / always /
+    mixed).  The single-batch history is cut so that the first run holds >= 2 arrivals of the key and every later run
+    at least one."""
+    case = gen_history(rng, fmt, strategy, force, "create", arrivals=rng.choice([5, 6, 7, 8, 9]),
+                       opts=dict(opts or {}, nbase=1))
+    recs = case["batches"][0]
+    idx = [i for i, r in enumerate(recs) if base_of(r, case["idkey"], BASES) is not None]
+    later = idx[2:]
+    nruns = min(len(later), rng.choice([2, 2, 3, 4]))
+    if nruns < 1:
+        return case
+    # split `later` into nruns consecutive non-empty groups; a run starts somewhere after the previous group's last arrival
+    marks = sorted(rng.sample(range(1, len(later)), nruns - 1)) if nruns > 1 else []
+    groups = [later[i:j] for i, j in zip([0] + marks, marks + [len(later)])]
+    cuts, prev_last = [], idx[1]
+    for g in groups:
+        cuts.append(rng.randrange(prev_last + 1, g[0] + 1))
+        prev_last = g[-1]
+    case["batches"] = [recs[i:j] for i, j in zip([0] + cuts, cuts + [len(recs)])]
+    mode = rng.choice(["never", "always", "mixed"])
+    case["reopen"] = [mode == "always" or (mode == "mixed" and rng.random() < 0.5) for _ in cuts]
+    case["db"] = "file" if (any(case["reopen"]) or rng.random() < 0.5) else "memory"
+    case["multirun"] = True
+    return case
 
 
 def gen_badforce(rng, fmt):
